@@ -200,8 +200,8 @@ Proof.
   repeat (apply andb_true_iff; split); apply Z.leb_le; lia.
 Qed.
 
-Lemma apply_rewards_inv s c e r p upt s' out :
-  Inv s -> apply_rewards s c e r p upt = Ok (s', out) ->
+Lemma apply_rewards_core_inv s c e r p upt s' out :
+  Inv s -> apply_rewards_core s c e r p upt = Ok (s', out) ->
   c = REWARD_ACTOR_ID /\ 0 <= r /\ 0 <= p /\ Inv s' /\ code out = EOK /\ ret out = 0 /\
   added out = locked_reward r /\ 0 <= added out /\
   added out <= bal s - locked (fu s) - pcd (fu s) - ip (fu s) /\
@@ -215,7 +215,7 @@ Lemma apply_rewards_inv s c e r p upt s' out :
   sends out = send_pledge (added out - vested out - drawn out) ++ send_value BURNT_FUNDS_ACTOR_ID (burnt out) /\
   (upt = 0 \/ added out - vested out - drawn out = 0).
 Proof.
-  intros [Hf Hsol] H. unfold apply_rewards in H. inv_ok. zb.
+  intros [Hf Hsol] H. unfold apply_rewards_core in H. inv_ok. zb.
   repeat match goal with
   | H : unlocked_balance _ _ = Ok _ |- _ => apply unlocked_balance_inv in H; destruct H as [Hub Hub0]
   | H : finish _ _ = Ok _ |- _ => apply finish_inv in H; destruct H as (-> & -> & Hchk)
@@ -245,9 +245,104 @@ Proof.
   - destruct Hnest as [Hn|Hn]; [right|left; assumption]. zb. lia.
 Qed.
 
+Lemma apply_rewards_inv s c e r p upt s' out :
+  Inv s -> apply_rewards s c e r p upt = Ok (s', out) ->
+  c = REWARD_ACTOR_ID /\ 0 <= r /\ 0 <= p /\ Inv s' /\ code out = EOK /\ ret out = 0 /\
+  added out = locked_reward r /\ 0 <= added out /\
+  added out <= bal s - locked (fu s) - pcd (fu s) - ip (fu s) /\
+  vested out = vested_sum (vest (fu s)) e /\
+  0 <= drawn out <= fee_debt (fu s) + p /\ drawn out <= burnt out /\
+  fee_debt (fu s') + burnt out = fee_debt (fu s) + p /\
+  unvested_sum (vest (fu s')) e = unvested_sum (vest (fu s)) e + added out - drawn out /\
+  locked (fu s') = locked (fu s) + added out - vested out - drawn out /\
+  bal s' = bal s - burnt out /\ paid out = 0 /\
+  same_collateral s s' /\ same_ctl s s' /\ term s' = term s /\
+  sends out = send_pledge (added out - vested out - drawn out) ++ send_value BURNT_FUNDS_ACTOR_ID (burnt out) /\
+  (upt = 0 \/ added out - vested out - drawn out = 0).
+Proof.
+  intros HI H. unfold apply_rewards, checked in H.
+  destruct (apply_rewards_core s c e r p upt) as [[s1 o1]|] eqn:E; cbn [bind] in H; [|discriminate].
+  apply finish_inv in H. destruct H as (-> & -> & _).
+  eapply apply_rewards_core_inv; [exact HI|exact E].
+Qed.
+
+
 Lemma term_available_pos t e : term_available t e <> 0 ->
   e < expiration t /\ term_available t e = quota t - used t /\ 0 < quota t - used t.
 Proof. unfold term_available. destruct (e <? expiration t) eqn:E; zb; lia. Qed.
+
+Lemma withdraw_balance_core_inv s c e req upt s' out :
+  Inv s -> withdraw_balance_core s c e req upt = Ok (s', out) ->
+  0 <= req /\ (c = owner s \/ c = benef s) /\ early_term s = false /\ Inv s' /\ code out = EOK /\
+  ret out = paid out /\ 0 <= paid out <= req /\
+  vested out = vested_sum (vest (fu s)) e /\ added out = 0 /\ drawn out = 0 /\
+  locked (fu s') = locked (fu s) - vested out /\
+  unvested_sum (vest (fu s')) e = unvested_sum (vest (fu s)) e /\
+  paid out <= bal s - locked (fu s') - pcd (fu s) - ip (fu s) - fee_debt (fu s) /\
+  burnt out = fee_debt (fu s) /\ fee_debt (fu s') = 0 /\
+  bal s' = bal s - paid out - burnt out /\
+  same_collateral s s' /\ same_ctl s s' /\
+  (benef s = owner s -> term s' = term s) /\
+  (benef s <> owner s ->
+     e < expiration (term s) /\ used (term s) < quota (term s) /\
+     paid out <= quota (term s) - used (term s) /\
+     used (term s') = used (term s) + paid out /\
+     quota (term s') = quota (term s) /\ expiration (term s') = expiration (term s)) /\
+  sends out = send_value (benef s) (paid out) ++ send_value BURNT_FUNDS_ACTOR_ID (burnt out) ++
+              send_pledge (- vested out) /\
+  (upt = 0 \/ vested out = 0).
+Proof.
+  intros [Hf Hsol] H. unfold withdraw_balance_core in H.
+  destruct (req <? 0) eqn:Ereq; [discriminate|].
+  destruct (negb ((c =? owner s) || (c =? benef s))) eqn:Ec; [discriminate|].
+  destruct (early_term s) eqn:Eet; [discriminate|].
+  destruct (f_unlock_vested_funds (fu s) e) as [[f1 nv]|] eqn:E1; cbn [bind] in H; [|discriminate].
+  destruct (available_balance f1 (bal s)) as [avail|] eqn:E2; cbn [bind] in H; [|discriminate].
+  destruct (f_repay_debts f1 (bal s)) as [[f2 fee]|] eqn:E3; cbn [bind] in H; [|discriminate].
+  destruct (Z.min avail req <? 0) eqn:Eamt; [discriminate|].
+  destruct (f_unlock_vested_inv _ _ _ _ Hf E1) as (Hnv & Hf1 & L1 & P1 & I1 & D1 & Pp1 & U1 & _).
+  apply available_balance_inv in E2. destruct E2 as [Hav Hub].
+  destruct (f_repay_debts_inv _ _ _ _ Hf1 E3) as (Hf2 & Hfee & -> & Hfee').
+  pose proof (fi_debt _ Hf) as Hd0.
+  pose proof (nonneg_vested (vest (fu s)) e (proj2 (fi_wf _ Hf))) as Hv0.
+  zb. apply orb_true_iff in Ec.
+  assert (Hcaller : c = owner s \/ c = benef s) by (destruct Ec as [Ec|Ec]; zb; auto).
+  unfold solvent in Hsol.
+  destruct (benef s =? owner s) eqn:Ebo; zb.
+  - (* the owner is the beneficiary *)
+    cbn [bind] in H.
+    destruct (nested (negb (nv =? 0)) upt) as [[]|] eqn:En; cbn [bind] in H; [|discriminate].
+    apply nested_inv in En. inversion H; subst s' out; clear H.
+    unfold same_collateral, same_ctl. ssimpl. fsimpl.
+    rewrite !(Z.max_l _ 0) by lia.
+    split; [lia|]. split; [assumption|]. split; [reflexivity|].
+    split; [split; [assumption|unfold solvent; ssimpl; fsimpl; lia]|].
+    split; [reflexivity|]. split; [reflexivity|]. split; [lia|]. split; [assumption|].
+    split; [reflexivity|]. split; [reflexivity|]. split; [lia|]. split; [assumption|].
+    split; [lia|]. split; [lia|]. split; [reflexivity|]. split; [lia|].
+    split; [split; assumption|]. split; [repeat split|]. split; [reflexivity|].
+    split; [intros; congruence|]. split; [reflexivity|].
+    destruct En as [En|En]; [right|left; assumption]. zb. lia.
+  - (* a separate beneficiary: quota and expiry *)
+    destruct (term_available (term s) e =? 0) eqn:Erem; [discriminate|]. zb.
+    destruct (term_available_pos _ _ Erem) as (Hexp & Hrem & Hq).
+    cbn [bind] in H.
+    destruct (nested (negb (nv =? 0)) upt) as [[]|] eqn:En; cbn [bind] in H; [|discriminate].
+    apply nested_inv in En. inversion H; subst s' out; clear H.
+    unfold same_collateral, same_ctl. ssimpl. fsimpl.
+    rewrite !(Z.max_l _ 0) by lia.
+    split; [lia|]. split; [assumption|]. split; [reflexivity|].
+    split; [split; [assumption|unfold solvent; ssimpl; fsimpl; lia]|].
+    split; [reflexivity|]. split; [reflexivity|]. split; [lia|]. split; [assumption|].
+    split; [reflexivity|]. split; [reflexivity|]. split; [lia|]. split; [assumption|].
+    split; [lia|]. split; [lia|]. split; [reflexivity|]. split; [lia|].
+    split; [split; assumption|]. split; [repeat split|]. split; [intros; congruence|].
+    split.
+    + intros _. split; [assumption|]. split; [lia|]. split; [lia|].
+      destruct (0 <? Z.min (Z.min avail req) (term_available (term s) e)) eqn:Epos; zb;
+        cbn [quota used expiration]; repeat split; lia.
+    + split; [reflexivity|]. destruct En as [En|En]; [right|left; assumption]. zb. lia.
+Qed.
 
 Lemma withdraw_balance_inv s c e req upt s' out :
   Inv s -> withdraw_balance s c e req upt = Ok (s', out) ->
@@ -270,56 +365,45 @@ Lemma withdraw_balance_inv s c e req upt s' out :
               send_pledge (- vested out) /\
   (upt = 0 \/ vested out = 0).
 Proof.
-  intros [Hf Hsol] H. unfold withdraw_balance in H.
-  destruct (req <? 0) eqn:Ereq; [discriminate|].
-  destruct (negb ((c =? owner s) || (c =? benef s))) eqn:Ec; [discriminate|].
-  destruct (early_term s) eqn:Eet; [discriminate|].
-  destruct (f_unlock_vested_funds (fu s) e) as [[f1 nv]|] eqn:E1; cbn [bind] in H; [|discriminate].
-  destruct (available_balance f1 (bal s)) as [avail|] eqn:E2; cbn [bind] in H; [|discriminate].
-  destruct (f_repay_debts f1 (bal s)) as [[f2 fee]|] eqn:E3; cbn [bind] in H; [|discriminate].
-  destruct (Z.min avail req <? 0) eqn:Eamt; [discriminate|].
-  destruct (f_unlock_vested_inv _ _ _ _ Hf E1) as (Hnv & Hf1 & L1 & P1 & I1 & D1 & Pp1 & U1 & _).
-  apply available_balance_inv in E2. destruct E2 as [Hav Hub].
-  destruct (f_repay_debts_inv _ _ _ _ Hf1 E3) as (Hf2 & Hfee & -> & Hfee').
-  pose proof (fi_debt _ Hf) as Hd0.
-  pose proof (nonneg_vested (vest (fu s)) e (proj2 (fi_wf _ Hf))) as Hv0.
-  zb. apply orb_true_iff in Ec.
-  assert (Hcaller : c = owner s \/ c = benef s) by (destruct Ec as [Ec|Ec]; zb; auto).
-  unfold solvent in Hsol.
-  destruct (benef s =? owner s) eqn:Ebo; zb.
-  - (* the owner is the beneficiary *)
-    cbn [bind] in H.
-    destruct (nested (negb (nv =? 0)) upt) as [[]|] eqn:En; cbn [bind] in H; [|discriminate].
-    apply nested_inv in En. apply finish_inv in H. destruct H as (-> & -> & Hchk).
-    unfold same_collateral, same_ctl. ssimpl. fsimpl.
-    rewrite !(Z.max_l _ 0) by lia.
-    split; [lia|]. split; [assumption|]. split; [reflexivity|].
-    split; [split; [assumption|unfold solvent; ssimpl; fsimpl; lia]|].
-    split; [reflexivity|]. split; [reflexivity|]. split; [lia|]. split; [assumption|].
-    split; [reflexivity|]. split; [reflexivity|]. split; [lia|]. split; [assumption|].
-    split; [lia|]. split; [lia|]. split; [reflexivity|]. split; [lia|].
-    split; [split; assumption|]. split; [repeat split|]. split; [reflexivity|].
-    split; [intros; congruence|]. split; [reflexivity|].
-    destruct En as [En|En]; [right|left; assumption]. zb. lia.
-  - (* a separate beneficiary: quota and expiry *)
-    destruct (term_available (term s) e =? 0) eqn:Erem; [discriminate|]. zb.
-    destruct (term_available_pos _ _ Erem) as (Hexp & Hrem & Hq).
-    cbn [bind] in H.
-    destruct (nested (negb (nv =? 0)) upt) as [[]|] eqn:En; cbn [bind] in H; [|discriminate].
-    apply nested_inv in En. apply finish_inv in H. destruct H as (-> & -> & Hchk).
-    unfold same_collateral, same_ctl. ssimpl. fsimpl.
-    rewrite !(Z.max_l _ 0) by lia.
-    split; [lia|]. split; [assumption|]. split; [reflexivity|].
-    split; [split; [assumption|unfold solvent; ssimpl; fsimpl; lia]|].
-    split; [reflexivity|]. split; [reflexivity|]. split; [lia|]. split; [assumption|].
-    split; [reflexivity|]. split; [reflexivity|]. split; [lia|]. split; [assumption|].
-    split; [lia|]. split; [lia|]. split; [reflexivity|]. split; [lia|].
-    split; [split; assumption|]. split; [repeat split|]. split; [intros; congruence|].
-    split.
-    + intros _. split; [assumption|]. split; [lia|]. split; [lia|].
-      destruct (0 <? Z.min (Z.min avail req) (term_available (term s) e)) eqn:Epos; zb;
-        cbn [quota used expiration]; repeat split; lia.
-    + split; [reflexivity|]. destruct En as [En|En]; [right|left; assumption]. zb. lia.
+  intros HI H. unfold withdraw_balance, checked in H.
+  destruct (withdraw_balance_core s c e req upt) as [[s1 o1]|] eqn:E; cbn [bind] in H; [|discriminate].
+  apply finish_inv in H. destruct H as (-> & -> & _).
+  eapply withdraw_balance_core_inv; [exact HI|exact E].
+Qed.
+
+
+Lemma repay_debt_core_inv s c e upt s' out :
+  Inv s -> repay_debt_core s c e upt = Ok (s', out) ->
+  is_control s c = true /\ Inv s' /\ code out = EOK /\ ret out = 0 /\ added out = 0 /\ paid out = 0 /\
+  0 <= vested out <= vested_sum (vest (fu s)) e /\
+  0 <= drawn out <= fee_debt (fu s) /\ drawn out <= burnt out /\
+  drawn out = Z.min (fee_debt (fu s)) (unvested_sum (vest (fu s)) e) /\
+  fee_debt (fu s') + burnt out = fee_debt (fu s) /\
+  unvested_sum (vest (fu s')) e = unvested_sum (vest (fu s)) e - drawn out /\
+  locked (fu s') = locked (fu s) - vested out - drawn out /\
+  bal s' = bal s - burnt out /\
+  same_collateral s s' /\ same_ctl s s' /\ term s' = term s /\
+  sends out = send_pledge (- (vested out + drawn out)) ++ send_value BURNT_FUNDS_ACTOR_ID (burnt out) /\
+  (upt = 0 \/ vested out + drawn out = 0).
+Proof.
+  intros [Hf Hsol] H. unfold repay_debt_core in H.
+  destruct (negb (is_control s c)) eqn:Ec; [discriminate|]. zb.
+  destruct (f_repay_partial (fu s) e (bal s)) as [[[[f1 burn] total] unv]|] eqn:E1; cbn [bind] in H; [|discriminate].
+  destruct (nested (negb (total =? 0)) upt) as [[]|] eqn:En; cbn [bind] in H; [|discriminate].
+  apply nested_inv in En. inversion H; subst s' out; clear H.
+  destruct (f_repay_partial_inv _ _ _ _ _ _ _ Hf Hsol E1)
+    as (Hf1 & Hunv & Hub' & Hb0 & Hmin & D3 & V3 & L3 & P3 & I3 & Pp3 & S3 & U3).
+  unfold same_collateral, same_ctl. ssimpl. fsimpl.
+  rewrite !(Z.max_l _ 0) by lia.
+  split; [assumption|].
+  split; [split; [assumption|unfold solvent; ssimpl; fsimpl; lia]|].
+  split; [reflexivity|]. split; [reflexivity|]. split; [reflexivity|]. split; [reflexivity|].
+  split; [lia|]. split; [lia|]. split; [lia|]. split; [assumption|]. split; [lia|].
+  split; [assumption|]. split; [lia|]. split; [reflexivity|].
+  split; [split; assumption|]. split; [repeat split|]. split; [reflexivity|].
+  split.
+  - f_equal. f_equal. lia.
+  - destruct En as [En|En]; [right|left; assumption]. zb. lia.
 Qed.
 
 Lemma repay_debt_inv s c e upt s' out :
@@ -336,28 +420,15 @@ Lemma repay_debt_inv s c e upt s' out :
   sends out = send_pledge (- (vested out + drawn out)) ++ send_value BURNT_FUNDS_ACTOR_ID (burnt out) /\
   (upt = 0 \/ vested out + drawn out = 0).
 Proof.
-  intros [Hf Hsol] H. unfold repay_debt in H.
-  destruct (negb (is_control s c)) eqn:Ec; [discriminate|]. zb.
-  destruct (f_repay_partial (fu s) e (bal s)) as [[[[f1 burn] total] unv]|] eqn:E1; cbn [bind] in H; [|discriminate].
-  destruct (nested (negb (total =? 0)) upt) as [[]|] eqn:En; cbn [bind] in H; [|discriminate].
-  apply nested_inv in En. apply finish_inv in H. destruct H as (-> & -> & Hchk).
-  destruct (f_repay_partial_inv _ _ _ _ _ _ _ Hf Hsol E1)
-    as (Hf1 & Hunv & Hub' & Hb0 & Hmin & D3 & V3 & L3 & P3 & I3 & Pp3 & S3 & U3).
-  unfold same_collateral, same_ctl. ssimpl. fsimpl.
-  rewrite !(Z.max_l _ 0) by lia.
-  split; [assumption|].
-  split; [split; [assumption|unfold solvent; ssimpl; fsimpl; lia]|].
-  split; [reflexivity|]. split; [reflexivity|]. split; [reflexivity|]. split; [reflexivity|].
-  split; [lia|]. split; [lia|]. split; [lia|]. split; [assumption|]. split; [lia|].
-  split; [assumption|]. split; [lia|]. split; [reflexivity|].
-  split; [split; assumption|]. split; [repeat split|]. split; [reflexivity|].
-  split.
-  - f_equal. f_equal. lia.
-  - destruct En as [En|En]; [right|left; assumption]. zb. lia.
+  intros HI H. unfold repay_debt, checked in H.
+  destruct (repay_debt_core s c e upt) as [[s1 o1]|] eqn:E; cbn [bind] in H; [|discriminate].
+  apply finish_inv in H. destruct H as (-> & -> & _).
+  eapply repay_debt_core_inv; [exact HI|exact E].
 Qed.
 
-Lemma deadline_cron_inv s c e p upt enr s' out :
-  Inv s -> deadline_cron s c e p upt enr = Ok (s', out) ->
+
+Lemma deadline_cron_core_inv s c e p upt enr s' out :
+  Inv s -> deadline_cron_core s c e p upt enr = Ok (s', out) ->
   c = STORAGE_POWER_ACTOR_ID /\ 0 <= p /\ Inv s' /\ code out = EOK /\ ret out = 0 /\
   added out = 0 /\ paid out = 0 /\
   0 <= vested out <= vested_sum (vest (fu s)) e /\
@@ -371,7 +442,7 @@ Lemma deadline_cron_inv s c e p upt enr s' out :
   (forall t m v d, In (t, m, v, d) (sends out) ->
      (t = BURNT_FUNDS_ACTOR_ID /\ v = burnt out) \/ (t = STORAGE_POWER_ACTOR_ID /\ v = 0)).
 Proof.
-  intros [Hf Hsol] H. unfold deadline_cron in H.
+  intros [Hf Hsol] H. unfold deadline_cron_core in H.
   destruct (negb (c =? STORAGE_POWER_ACTOR_ID)) eqn:Ec; [discriminate|]. zb.
   destruct (f_apply_penalty (fu s) p) as [f0|] eqn:E0; cbn [bind] in H; [|discriminate].
   destruct (f_repay_partial f0 e (bal s)) as [[[[f1 burn] total] unv]|] eqn:E1; cbn [bind] in H; [|discriminate].
@@ -379,7 +450,7 @@ Proof.
   destruct (nested (negb (- total - nv =? 0)) upt) as [[]|] eqn:En; cbn [bind] in H; [|discriminate].
   match type of H with bind (nested ?b enr) _ = _ =>
     destruct (nested b enr) as [[]|] eqn:En2; cbn [bind] in H; [|discriminate] end.
-  apply nested_inv in En. apply finish_inv in H. destruct H as (-> & -> & Hchk).
+  apply nested_inv in En. inversion H; subst s' out; clear H.
   destruct (f_apply_penalty_inv _ _ _ Hf E0) as (Hp0 & Hf0 & ->).
   eapply f_repay_partial_inv in E1; [|exact Hf0|unfold solvent in *; fsimpl; assumption].
   destruct E1 as (Hf1 & Hunv & Hub' & Hb0 & Hmin & D3 & V3 & L3 & P3 & I3 & Pp3 & S3 & U3).
@@ -407,6 +478,28 @@ Proof.
       * match type of Hin with In _ (if ?b then _ else _) => destruct b end; [|destruct Hin].
         destruct Hin as [Hin|[]]. inversion Hin; subst. right. auto.
 Qed.
+
+Lemma deadline_cron_inv s c e p upt enr s' out :
+  Inv s -> deadline_cron s c e p upt enr = Ok (s', out) ->
+  c = STORAGE_POWER_ACTOR_ID /\ 0 <= p /\ Inv s' /\ code out = EOK /\ ret out = 0 /\
+  added out = 0 /\ paid out = 0 /\
+  0 <= vested out <= vested_sum (vest (fu s)) e /\
+  0 <= drawn out <= fee_debt (fu s) + p /\ drawn out <= burnt out /\
+  fee_debt (fu s') + burnt out = fee_debt (fu s) + p /\
+  unvested_sum (vest (fu s')) e = unvested_sum (vest (fu s)) e - drawn out /\
+  locked (fu s') = locked (fu s) - vested out - drawn out /\
+  bal s' = bal s - burnt out /\
+  same_collateral s s' /\ same_ctl s s' /\ term s' = term s /\
+  (upt = 0 \/ vested out + drawn out = 0) /\
+  (forall t m v d, In (t, m, v, d) (sends out) ->
+     (t = BURNT_FUNDS_ACTOR_ID /\ v = burnt out) \/ (t = STORAGE_POWER_ACTOR_ID /\ v = 0)).
+Proof.
+  intros HI H. unfold deadline_cron, checked in H.
+  destruct (deadline_cron_core s c e p upt enr) as [[s1 o1]|] eqn:E; cbn [bind] in H; [|discriminate].
+  apply finish_inv in H. destruct H as (-> & -> & _).
+  eapply deadline_cron_core_inv; [exact HI|exact E].
+Qed.
+
 
 Lemma change_beneficiary_inv s c e nb q ex s' out :
   change_beneficiary s c e nb q ex = Ok (s', out) ->
@@ -469,11 +562,11 @@ Local Hint Resolve unlocked_balance_err available_balance_err f_apply_penalty_er
 Lemma handle_err s o c : handle s o = Err c -> c <> 0.
 Proof.
   destruct o; cbn [handle]; intros H.
-  - unfold apply_rewards in H. err_tac; try codes; eauto with errnz.
-  - unfold withdraw_balance in H. err_tac; try codes; eauto with errnz.
-  - unfold repay_debt in H. err_tac; try codes; eauto with errnz.
+  - unfold apply_rewards, checked, apply_rewards_core in H. err_tac; try codes; eauto with errnz.
+  - unfold withdraw_balance, checked, withdraw_balance_core in H. err_tac; try codes; eauto with errnz.
+  - unfold repay_debt, checked, repay_debt_core in H. err_tac; try codes; eauto with errnz.
   - unfold change_beneficiary in H. err_tac; try codes; eauto with errnz.
-  - unfold deadline_cron in H. err_tac; try codes; eauto with errnz.
+  - unfold deadline_cron, checked, deadline_cron_core in H. err_tac; try codes; eauto with errnz.
   - err_tac; codes.
   - err_tac; try codes; eauto with errnz.
   - err_tac; try codes; eauto with errnz.
@@ -483,15 +576,15 @@ Qed.
 Lemma handle_ok_code s o s' out : handle s o = Ok (s', out) -> code out = 0.
 Proof.
   destruct o; cbn [handle]; intros H.
-  - destruct (value <? 0); [discriminate|]. unfold apply_rewards in H. inv_ok.
+  - destruct (value <? 0); [discriminate|]. unfold apply_rewards, checked, apply_rewards_core in H. inv_ok.
     match goal with H : finish _ _ = Ok _ |- _ => apply finish_inv in H; destruct H as (_ & -> & _) end. reflexivity.
-  - destruct (value <? 0); [discriminate|]. unfold withdraw_balance in H. inv_ok;
+  - destruct (value <? 0); [discriminate|]. unfold withdraw_balance, checked, withdraw_balance_core in H. inv_ok;
     match goal with H : finish _ _ = Ok _ |- _ => apply finish_inv in H; destruct H as (_ & -> & _) end; reflexivity.
-  - destruct (value <? 0); [discriminate|]. unfold repay_debt in H. inv_ok.
+  - destruct (value <? 0); [discriminate|]. unfold repay_debt, checked, repay_debt_core in H. inv_ok.
     match goal with H : finish _ _ = Ok _ |- _ => apply finish_inv in H; destruct H as (_ & -> & _) end. reflexivity.
   - destruct (value <? 0); [discriminate|]. apply change_beneficiary_inv in H.
     destruct H as (_ & _ & -> & _). reflexivity.
-  - unfold deadline_cron in H. inv_ok.
+  - unfold deadline_cron, checked, deadline_cron_core in H. inv_ok.
     match goal with H : finish _ _ = Ok _ |- _ => apply finish_inv in H; destruct H as (_ & -> & _) end. reflexivity.
   - inv_ok. reflexivity.
   - inv_ok. reflexivity.
@@ -844,7 +937,7 @@ Theorem withdraw_blocked_by_early_terminations s c e v req upt :
 Proof.
   intros He. destruct (step s (Withdraw c e v req upt)) as [s' out] eqn:Hst. cbn [snd].
   intros Hc. apply (step_ok_iff _ _ _ _ Hst) in Hc. cbn [handle] in Hc.
-  destruct (v <? 0); [discriminate|]. unfold withdraw_balance in Hc. ssimpl. rewrite He in Hc.
+  destruct (v <? 0); [discriminate|]. unfold withdraw_balance, checked, withdraw_balance_core in Hc. ssimpl. rewrite He in Hc.
   destruct (req <? 0); [discriminate|].
   destruct (negb ((c =? owner s) || (c =? benef s))); discriminate.
 Qed.
@@ -891,6 +984,110 @@ Proof.
   replace (pps + k * WPOST_PROVING_PERIOD) with (pps + REWARD_VEST_QUANTIZATION * (2 * k))
     by (unfold WPOST_PROVING_PERIOD, REWARD_VEST_QUANTIZATION; lia).
   apply quantize_up_offset_shift. reflexivity.
+Qed.
+
+(* ------------------------------------------------------------------------------------------ *)
+(* the final check_balance_invariants of every handler is never the reason of a failure: the miner
+   itself never raises ERR_BALANCE_INVARIANTS_BROKEN from a state satisfying the invariant *)
+
+Definition small (c : Z) : Prop := c = 16 \/ c = 18 \/ c = 19 \/ c = 20.
+Ltac smallc := solve [unfold small, ILLEGAL_ARGUMENT, FORBIDDEN, INSUFFICIENT_FUNDS, ILLEGAL_STATE; auto 6].
+
+Lemma unlocked_balance_small f b c : unlocked_balance f b = Err c -> small c.
+Proof. unfold unlocked_balance. intros H. err_tac. smallc. Qed.
+Lemma available_balance_small f b c : available_balance f b = Err c -> small c.
+Proof. unfold available_balance. intros H. err_tac. eauto using unlocked_balance_small. Qed.
+Lemma f_apply_penalty_small f p c : f_apply_penalty f p = Err c -> small c.
+Proof. unfold f_apply_penalty. intros H. err_tac. smallc. Qed.
+Lemma f_add_pcd_small f p c : f_add_pcd f p = Err c -> small c.
+Proof. unfold f_add_pcd. intros H. err_tac. smallc. Qed.
+Lemma f_add_ip_small f p c : f_add_ip f p = Err c -> small c.
+Proof. unfold f_add_ip. intros H. err_tac. smallc. Qed.
+Lemma f_add_locked_small f cur sum sp c : f_add_locked_funds f cur sum sp = Err c -> small c.
+Proof. unfold f_add_locked_funds. intros H. err_tac; smallc. Qed.
+Lemma f_unlock_vested_small f cur c : f_unlock_vested_funds f cur = Err c -> small c.
+Proof. unfold f_unlock_vested_funds. intros H. err_tac; smallc. Qed.
+Lemma f_unlock_both_small f cur t c : f_unlock_vested_and_unvested f cur t = Err c -> small c.
+Proof. unfold f_unlock_vested_and_unvested. intros H. err_tac; smallc. Qed.
+Lemma f_repay_partial_small f cur b c : f_repay_partial f cur b = Err c -> small c.
+Proof.
+  unfold f_repay_partial. intros H. err_tac; try smallc;
+    eauto using unlocked_balance_small, f_unlock_both_small.
+Qed.
+Lemma f_repay_debts_small f b c : f_repay_debts f b = Err c -> small c.
+Proof. unfold f_repay_debts. intros H. err_tac; try smallc; eauto using unlocked_balance_small. Qed.
+Lemma nested_err_is m x c : nested m x = Err c -> c = x.
+Proof. unfold nested. intros H. err_tac. reflexivity. Qed.
+
+Local Hint Resolve unlocked_balance_small available_balance_small f_apply_penalty_small f_add_pcd_small
+  f_add_ip_small f_add_locked_small f_unlock_vested_small f_unlock_both_small f_repay_partial_small
+  f_repay_debts_small : smalldb.
+
+Definition nested_codes (o : op) : list Z :=
+  match o with
+  | ApplyRewards _ _ _ _ _ upt | Withdraw _ _ _ _ upt | RepayDebt _ _ _ upt => [upt]
+  | Cron _ _ _ upt enr => [upt; enr]
+  | _ => []
+  end.
+
+Lemma checked_err r c : checked r = Err c ->
+  r = Err c \/ exists s1 o1, r = Ok (s1, o1) /\ finish s1 o1 = Err c.
+Proof.
+  unfold checked. destruct r as [[s1 o1]|c']; cbn [bind]; intros H.
+  - right. exists s1, o1. auto.
+  - left. congruence.
+Qed.
+
+Lemma finish_ok_of_inv s o : Inv s -> finish s o = Ok (s, o).
+Proof. intros HI. unfold finish. rewrite (check_of_inv s HI). reflexivity. Qed.
+
+Ltac nest_or_small :=
+  match goal with
+  | H : nested _ ?x = Err ?c |- _ => apply nested_err_is in H; subst; right; cbn; auto
+  | _ => left; try smallc; eauto with smalldb
+  end.
+
+Lemma handle_err_class s o c : Inv s -> handle s o = Err c -> small c \/ In c (nested_codes o).
+Proof.
+  intros HI. destruct o; cbn [handle nested_codes]; intros H.
+  - destruct (value <? 0) eqn:Ev; [inversion H; left; smallc|]. zb.
+    pose proof (credit_inv _ _ HI Ev) as HI'. unfold apply_rewards in H.
+    destruct (checked_err _ _ H) as [Hc|(s1 & o1 & Hc & Hf)].
+    + unfold apply_rewards_core in Hc. err_tac; nest_or_small.
+    + pose proof (apply_rewards_core_inv _ _ _ _ _ _ _ _ HI' Hc) as (_ & _ & _ & HI1 & _).
+      rewrite (finish_ok_of_inv _ o1 HI1) in Hf. discriminate.
+  - destruct (value <? 0) eqn:Ev; [inversion H; left; smallc|]. zb.
+    pose proof (credit_inv _ _ HI Ev) as HI'. unfold withdraw_balance in H.
+    destruct (checked_err _ _ H) as [Hc|(s1 & o1 & Hc & Hf)].
+    + unfold withdraw_balance_core in Hc. err_tac; nest_or_small.
+    + pose proof (withdraw_balance_core_inv _ _ _ _ _ _ _ HI' Hc) as (_ & _ & _ & HI1 & _).
+      rewrite (finish_ok_of_inv _ o1 HI1) in Hf. discriminate.
+  - destruct (value <? 0) eqn:Ev; [inversion H; left; smallc|]. zb.
+    pose proof (credit_inv _ _ HI Ev) as HI'. unfold repay_debt in H.
+    destruct (checked_err _ _ H) as [Hc|(s1 & o1 & Hc & Hf)].
+    + unfold repay_debt_core in Hc. err_tac; nest_or_small.
+    + pose proof (repay_debt_core_inv _ _ _ _ _ _ HI' Hc) as (_ & HI1 & _).
+      rewrite (finish_ok_of_inv _ o1 HI1) in Hf. discriminate.
+  - left. destruct (value <? 0); [inversion H; smallc|].
+    unfold change_beneficiary in H. err_tac; smallc.
+  - unfold deadline_cron in H.
+    destruct (checked_err _ _ H) as [Hc|(s1 & o1 & Hc & Hf)].
+    + unfold deadline_cron_core in Hc. err_tac; nest_or_small.
+    + pose proof (deadline_cron_core_inv _ _ _ _ _ _ _ _ HI Hc) as (_ & _ & HI1 & _).
+      rewrite (finish_ok_of_inv _ o1 HI1) in Hf. discriminate.
+  - left. err_tac; smallc.
+  - left. err_tac; try smallc; eauto with smalldb.
+  - left. err_tac; try smallc; eauto with smalldb.
+  - discriminate.
+Qed.
+
+Theorem balance_check_never_fails s o :
+  Inv s -> code (snd (step s o)) = BALANCE_INVARIANTS_BROKEN -> In BALANCE_INVARIANTS_BROKEN (nested_codes o).
+Proof.
+  intros HI. unfold step. destruct (handle s o) as [[s1 o1]|c] eqn:E; cbn [snd code fail].
+  - intros Hc. apply handle_ok_code in E. unfold BALANCE_INVARIANTS_BROKEN in Hc. lia.
+  - intros ->. destruct (handle_err_class _ _ _ HI E) as [Hs|Hn]; [|exact Hn].
+    unfold small, BALANCE_INVARIANTS_BROKEN in Hs. lia.
 Qed.
 
 Lemma history_invariant balance deposit epoch p own wrk ops :
